@@ -232,3 +232,17 @@ PROPS["C32"] = dict(explanation="Bounded symbolic execution of the real flush-to
     bounds=["3 rows, bucket (3 choices) and day (2 choices) per row case-split, values symbolic; one request or two", "3 fixed trigger patterns"],
     outside=["concurrent writers and the dispatcher/trigger goroutines (run's loop body is replicated in the harness: edits inside run are not seen)", "other patterns and key shapes", "triggers during WAL replay"],
     stubs=FS_STUBS + ["regexp.MatchString on concrete strings: native call-out"], assumptions=COMMON_ASSUME)
+
+
+PROPS["C13"] = dict(explanation="Bounded symbolic execution of the real frontend.QueryService.ExecuteQuery (CandleDurationFromString/QueryableTimeframe, planner.Query.AddTargetKey with a multi-item key, planner.Parse restriction matching over the catalog, executor.NewReader/Read over several IOPlans, ColumnSeriesMap.FilterColumns/Project) over the file-system model: two buckets AAA and BBB (1..2 daily bars each, symbolic values) are queried together and one by one with the same symbolic time range and the same column list; per symbol the multi-symbol result must equal the single-symbol result (rows, columns, values), and the single result must be the in-range rows with the time column and exactly the requested columns.",
+    runs=[dict(pkg="frontend", files=["c13_multi.go"], entries=["VerifC13MultiSymbol"], must_reach=["entered", "queried"], opts=dict(timeout=60))],
+    bounds=["2 symbols, 1..2 rows each, columns Epoch, V int32, F float32", "column lists: none, [V], [F,V], [V,V] (duplicate), [Nope,V] (unknown name)", "range start/end symbolic (whole seconds) from one day before the first bar to two/three days after"],
+    outside=["the '*' symbol expansion (gatherAllSymbols) and missing symbols", "NumpyMultiDataset.Append packing of the response (C27)", "limits (C12), functions"],
+    stubs=FS_STUBS, assumptions=COMMON_ASSUME)
+
+
+PROPS["C18"] = dict(explanation="Bounded symbolic execution of a query that runs between two file-mutating calls of a concurrent write request (the part of C18 a single interpreted goroutine can decide): writes A and B are complete; the writer of C is suspended before any one of its file-mutating calls (WAL records, fsync, primary data write, index write: every prefix); the real reader (planner.Parse, NewReader, Read incl. readSecondStage) then runs to completion on the same catalog. It must not fail, must return every row of the completed writes exactly once and may show C's row at most once, and nothing else.",
+    runs=[dict(pkg="executor", files=["c08_fixed.go", "c09_variable.go", "c11_range.go", "c01_walsim.go", "c18_readcommitted.go"], entries=["VerifC18ReaderDuringWrite"], must_reach=["entered", "suspended", "queried"], opts=dict(timeout=60))],
+    bounds=["one bucket, fixed-length or variable-length (compression disabled), 3 writes of one row over 2 intervals (all placements), seconds and values symbolic", "reader positioned before every file-mutating call of the third write; reader atomic with respect to writer calls"],
+    outside=["data races and the Go memory model (no race detector, no second goroutine)", "a reader interleaved inside its own sequence of reads", "several concurrent writers; the catalog under concurrent create/destroy (C17)", "snappy-compressed storage: there the recorded window makes the reader fail with 'corrupt input'", "known finding region: reader between the in-place data write and the index write of a variable-length interval"],
+    stubs=FS_STUBS + TICK_STUBS, assumptions=COMMON_ASSUME)
